@@ -76,6 +76,7 @@ func c09RacePass(tier string) {
 			scope.Set(types.Symbol{Val: "a"}, &concurrent.Atom{Val: 1})
 			scope.Set(types.Symbol{Val: "b"}, &concurrent.Atom{Val: 1})
 			scope.Set(types.Symbol{Val: "k"}, &concurrent.Atom{Val: types.List{Val: []types.MalType{0}}})
+			scope.Set(types.Symbol{Val: "w"}, &concurrent.Atom{Val: types.Vector{Val: []types.MalType{1, 2}}})
 			var bodies []func()
 			cctx, ccancel := context.WithCancel(context.Background())
 			for ti, o := range plan {
@@ -284,6 +285,66 @@ func c20RacePass(tier string) {
 	mismatch.Range(func(k, v any) bool {
 		fmt.Fprintf(os.Stderr, "RACEPASS-VIOLATION a bound function was entered with another evaluation's context (or failed) under concurrent calls\n")
 		return false
+	})
+	fmt.Fprintf(os.Stderr, "RACEPASS-ITERATIONS %d\n", total)
+}
+
+// values shared by evaluations running at once: several futures extend the same vectors, lists and
+// maps at the same instant; each must get exactly its own extension of the unchanged parent
+func c02RacePass(tier string) {
+	base := lx.NewFullEnv()
+	total := 0
+	var bad sync.Map
+	rounds := 12
+	if tier == "thorough" {
+		rounds = 120
+	}
+	for round := 0; round < rounds; round++ {
+		sh := env.NewSubordinateEnv(base)
+		// parents made by the builtins themselves (conj-built, assoc-built, concat-built), 1500 of each
+		if _, err, p := lx.Eval(context.Background(), lx.MustRead(`(do
+			(def vs (map (fn [i] (conj [:base i] :z)) (range 0 1500)))
+			(def ws (map (fn [i] (assoc [:base i 0 0 0] 2 :y)) (range 0 1500)))
+			(def ms (map (fn [i] (assoc {:base i} :k 1)) (range 0 1500))))`), sh); err != nil || p != nil {
+			panic(fmt.Sprint("c02 race pass setup: ", err, p))
+		}
+		var bodies []func()
+		for g := 0; g < 8; g++ {
+			g := g
+			ast := lx.MustRead(fmt.Sprintf(`(list (map (fn [v] (conj v %d)) vs) (map (fn [v] (conj v %d %d)) ws) (map (fn [m] (assoc m :g %d)) ms))`, g, g, g, g))
+			bodies = append(bodies, func() {
+				res, err, p := lx.Eval(context.Background(), ast, sh)
+				if err != nil || p != nil {
+					bad.Store("error", fmt.Sprint(err, p))
+					return
+				}
+				parts := res.(types.List).Val
+				for i, r := range parts[0].(types.List).Val {
+					v := r.(types.Vector).Val
+					if len(v) != 4 || v[0] != types.NewKeyword("base") || v[1] != i || v[2] != types.NewKeyword("z") || v[3] != g {
+						bad.Store("conj", fmt.Sprintf("evaluation %d got %v for (conj [:base %d :z] %d)", g, v, i, g))
+					}
+				}
+				for i, r := range parts[1].(types.List).Val {
+					v := r.(types.Vector).Val
+					if len(v) != 7 || v[1] != i || v[2] != types.NewKeyword("y") || v[5] != g || v[6] != g {
+						bad.Store("conj2", fmt.Sprintf("evaluation %d got %v for (conj [:base %d :y 0 0] %d %d)", g, v, i, g, g))
+					}
+				}
+				for i, r := range parts[2].(types.List).Val {
+					m := r.(types.HashMap).Val
+					if len(m) != 3 || m[types.NewKeyword("g")] != g || m[types.NewKeyword("base")] != i {
+						bad.Store("assoc", fmt.Sprintf("evaluation %d got %v for (assoc {:base %d :k 1} :g %d)", g, m, i, g))
+					}
+				}
+			})
+		}
+		raceRun(bodies)
+		total++
+	}
+	bad.Range(func(k, v any) bool {
+		fmt.Fprintf(os.Stderr, "RACEPASS-VIOLATION a value extended by several evaluations at once came out wrong for one of them (%v)\n  %v\n", k, v)
+		return true
 	})
 	fmt.Fprintf(os.Stderr, "RACEPASS-ITERATIONS %d\n", total)
 }
